@@ -32,7 +32,7 @@ def main():
             r = sh(["/venv/bin/python", demo], env=env, cwd=mdir)
             out["demo_mutated"] = r.returncode
             out["demo_tail"] = (r.stdout + r.stderr)[-400:]
-            r = sh(["python3", "/tmp/mut/tools/baseline_check.py", wt])
+            r = sh(["python3", "/verif/tools/baseline_check.py", wt])
             out["baseline_lost"] = r.returncode
             out["baseline_tail"] = r.stdout.strip().splitlines()[-1] if r.stdout.strip() else r.stderr[-200:]
         scratch = f"/tmp/vrun/{os.path.basename(os.path.dirname(mdir + '/'))}_{os.path.basename(mdir)}_{os.getpid()}"
